@@ -118,15 +118,30 @@ fn stream_answers<R: Read + Seek>(s: &mut ElfStream<AnyEndian, R>) -> Vec<(Strin
     out
 }
 
+/// `VERIF_ORACLE_PROP=Cxx` restricts the oracle to the clauses of that property (so that a failure of another property found
+/// first in the same case does not hide it); unset = all clauses
+fn on(p: &str) -> bool { match std::env::var("VERIF_ORACLE_PROP") { Ok(v) if !v.is_empty() && v != "C01" => v == p, _ => true } }
 pub fn check_stream(c: &StreamCase) -> Result<(), String> {
     let b = &c.file[..c.cut.min(c.file.len())];
     let slice = slice_answers(b);
     // ---- C07 / C05: fault-free stream against the slice parser on the same bytes
     let mut st = ElfStream::<AnyEndian, _>::open_stream(Probe::new(b, 0, false));
-    match (&slice, &st) {
+    if on("C07") { match (&slice, &st) {
         (Some(_), Err(e)) => return Err(format!("C07: the slice parser opens these {} bytes, the stream parser does not: {:?}", b.len(), e)),
         (None, Ok(_)) => return Err(format!("C07: the stream parser opens these {} bytes, the slice parser does not", b.len())),
         _ => {}
+    } }
+    // ---- C05 (stream): the parsed header vectors are exactly the tables the header declares (independent decode)
+    if let (true, Some((want_sh, want_ph))) = (on("C05"), crate::slice_oracle::c05_expect(b)) {
+        match (&st, &want_sh, &want_ph) {
+            (Ok(s), Ok(sh), Ok(ph)) => {
+                if s.section_headers().len() as u64 != sh.map_or(0, |x| x.1) { return Err(format!("C05: the stream parser holds {} section headers, the header declares {}", s.section_headers().len(), sh.map_or(0, |x| x.1))); }
+                if s.segments().len() as u64 != ph.map_or(0, |x| x.1) { return Err(format!("C05: the stream parser holds {} program headers, the header declares {}", s.segments().len(), ph.map_or(0, |x| x.1))); }
+            }
+            (Ok(_), _, _) => return Err("C05: the stream parser opens a file whose declared header table has a wrong entry size or does not fit".into()),
+            (Err(x), Ok(_), Ok(_)) => return Err(format!("C05: the stream parser fails to open ({:?}) although both declared tables have the right entry size and fit", x)),
+            _ => {}
+        }
     }
     let mut reference: Option<Vec<(String, Result<String, ()>)>> = None;
     // C07's query clause is scoped to files whose section header table is absent or non-empty
@@ -135,19 +150,19 @@ pub fn check_stream(c: &StreamCase) -> Result<(), String> {
         let got = stream_answers(s);
         if sl.len() != got.len() { return Err(format!("C07: the two parsers see different tables (query lists differ: {} vs {})", sl.len(), got.len())); }
         for ((q, a), (_, g)) in sl.iter().zip(got.iter()) {
-            match (a, g) {
+            if on("C07") { match (a, g) {
                 (Ok(x), Ok(y)) => if x != y { return Err(format!("C07: `{}` differs: slice {} / stream {}", q, trunc(x), trunc(y))); },
                 (Ok(x), Err(())) => return Err(format!("C07: `{}` succeeds on the slice ({}) but is an error on the stream", q, trunc(x))),
                 _ => {}
-            }
+            } }
         }
         // repeated queries, in another order, give the same answers (cache)
         let again = stream_answers(s);
-        if again != got { return Err("C07: repeating the queries on the same stream changes an answer".into()); }
+        if on("C07") && again != got { return Err("C07: repeating the queries on the same stream changes an answer".into()); }
         reference = Some(got);
     }
     // ---- C18 (stream): a proper prefix gives an error or the same answer
-    if let Some(full) = &reference {
+    if let (true, Some(full)) = (on("C18"), &reference) {
         if c.cut >= c.file.len() {
             for cutp in [b.len() - 1, b.len() - 4, b.len() - 9, b.len() - 25, b.len() - 47, b.len() * 3 / 4, b.len() / 2, 200, 100] {
                 if cutp >= b.len() { continue; }
@@ -162,7 +177,7 @@ pub fn check_stream(c: &StreamCase) -> Result<(), String> {
         }
     }
     // ---- C17: a fault at the fail_at-th I/O call: that call's operation is an error; afterwards every answer is an error or the fault-free one
-    if c.fail_at != 0 {
+    if c.fail_at != 0 && on("C17") {
         if let Some(full) = &reference {
             match ElfStream::<AnyEndian, _>::open_stream(if c.early_eof { Probe::with_early_eof(b, c.fail_at) } else { Probe::new(b, c.fail_at, c.short_read) }) {
                 Err(_) => {}
@@ -180,7 +195,7 @@ pub fn check_stream(c: &StreamCase) -> Result<(), String> {
         }
     }
     // ---- C08: no single allocation exceeds a small multiple of the stream length plus a few KiB, whatever the headers claim
-    {
+    if on("C08") {
         let limit = 4 * b.len() + 65536;      // "a small constant multiple of the stream's length plus a fixed few-KiB overhead", read generously
         let (st2, peak) = alloc_probe::measure(|| ElfStream::<AnyEndian, _>::open_stream(Cursor::new(b.to_vec())));
         if peak > limit { return Err(format!("C08: open_stream made a single allocation of {} bytes on a {}-byte stream (limit 4*len + 64 KiB = {})", peak, b.len(), limit)); }
@@ -195,7 +210,7 @@ pub fn check_stream(c: &StreamCase) -> Result<(), String> {
         }
     }
     // ---- C08: opening reads no more than the header and the two tables (+ shdr[0] twice)
-    {
+    if on("C08") {
         let counter = std::rc::Rc::new(std::cell::Cell::new(0usize));
         struct Counting { inner: Cursor<Vec<u8>>, n: std::rc::Rc<std::cell::Cell<usize>> }
         impl Read for Counting { fn read(&mut self, buf: &mut [u8]) -> std::io::Result<usize> { self.n.set(self.n.get() + buf.len()); self.inner.read(buf) } }
